@@ -624,6 +624,47 @@ impl Evidence {
         merge_counters(&mut self.counters, counters);
     }
 
+    /// Fold in the result of an exhaustively enumerated grid; writes a replay file for the
+    /// first violations that are not known findings.
+    pub fn add_grid_result(
+        &mut self,
+        name: &str,
+        rule: &str,
+        res: crate::grid::GridResult,
+        point_json: &dyn Fn(usize) -> Value,
+        sample_idx: &[usize],
+    ) {
+        let known = load_known(&self.property);
+        let samples: Vec<Value> = sample_idx.iter().filter(|i| (**i as u64) < res.evaluated).map(|i| json!({"grid": name, "point": point_json(*i)})).collect();
+        self.add_grid(name, res.evaluated, res.evaluated, rule, samples, &res.counters);
+        let mut written = 0;
+        'outer: for (i, v) in res.violations.iter() {
+            for k in &known {
+                if k.oracle == v.oracle && (k.sig == v.sig || k.sig == "*") {
+                    let e = self.known.entry(k.id.clone()).or_insert((0, k.what.clone()));
+                    e.0 += 1;
+                    continue 'outer;
+                }
+            }
+            if written >= 3 {
+                continue;
+            }
+            let file = format!("{}/{}-{}-{}.json", replay_dir(), self.property, name.replace(|c: char| !c.is_alphanumeric(), "_"), self.violations.len());
+            let doc = json!({
+                "property": self.property,
+                "kind": "point",
+                "grid": name,
+                "point": point_json(*i),
+                "oracle": v.oracle,
+                "sig": v.sig,
+                "detail": v.detail,
+            });
+            std::fs::write(&file, serde_json::to_string_pretty(&doc).unwrap()).unwrap();
+            self.violations.push((file, format!("{} [{}] {}", v.oracle, v.sig, v.detail)));
+            written += 1;
+        }
+    }
+
     pub fn violation(&mut self, replay: String, summary: String) {
         self.violations.push((replay, summary));
     }
